@@ -501,7 +501,18 @@ def sz345(F, R, roundtrip=True):
     # is a fact about values no rule here establishes (fail closed)
     for site, kind, st in (load.sites() if roundtrip else ()):
         if kind == "stmt" and st["k"] == "assign" and st["rv"]["k"] == "aggregate" and st["rv"].get("variant") == "Err" and not st.get("exp"):
-            if not any(x[0] == "in" and x[2] <= frozenset(["Continue", "Ok"]) and mentions_call(x[1], de) for x in load.facts_at(site)):
+            fs_ = load.facts_at(site)
+            # an Err built where a fallible call has failed (a `match` arm re-wrapping the error of the read or of the decode) is
+            # propagation spelled out
+            rewrap = any(x[0] == "in" and x[2] <= frozenset(["Err", "Break", "None"]) for x in fs_)
+            try:
+                pay = load.expr_rvalue(st["rv"], site)
+                # ... or whose payload is (made from) the error of another result: a combinator chain written out
+                if mentions(pay, lambda x: x[0] == "vfield" and len(x) > 2 and x[2] == "Err"):
+                    rewrap = True       # the payload is (made from) the Err payload of a result: not a fresh error
+            except Exception:
+                pass
+            if not rewrap and not any(x[0] == "in" and x[2] <= frozenset(["Continue", "Ok"]) and mentions_call(x[1], de) for x in fs_):
                 R.bad("SZ4", "SZ4/Sodg::load/own-error-before-decode", load.where(site),
                       "load() builds an Err of its own before the image is decoded (a size or format check): an image written by save() "
                       "can be refused — e.g. the small image of a graph of capacity 1",
